@@ -229,8 +229,8 @@ succeeds and bit `i` of the answer for a name of the property's alphabet is 1 ex
 valid pattern added under index `i` matches the name according to its kind. -/
 theorem set_matches_iff_some_pattern (n : Nat) (log : List AddCall) (name : Str) (rxHits : List Nat)
     (hall : ∀ a ∈ log, callOk n a = true) (hn : plainName name = true) :
-    ∃ b, (Matcher.replay n log).build = .ok b ∧
-      ∀ i, i ∈ b.matchIndicesSpec name rxHits ↔ (i < n ∧ docMatches log i name rxHits = true) := by
+    ∃ b, (Matcher.replayCore n log).build = .ok b ∧
+      ∀ i, i ∈ b.matchIndicesSpec name rxHits ↔ (i < n ∧ docMatchesCore log i name rxHits = true) := by
   obtain ⟨b, hb, hsize, hsets⟩ := build_ok n log hall
   refine ⟨b, hb, ?_⟩
   intro i
@@ -242,7 +242,7 @@ theorem set_matches_iff_some_pattern (n : Nat) (log : List AddCall) (name : Str)
     refine ⟨hi, ?_⟩
     rw [hsets i hi] at hm
     simp only [BuiltSet.matchesSpec, builtOf, setOf, hasPrefixSpec, acContains, hd.map_acNorm] at hm
-    simp only [docMatches, List.any_eq_true, Bool.and_eq_true, beq_iff_eq]
+    simp only [docMatchesCore, List.any_eq_true, Bool.and_eq_true, beq_iff_eq]
     simp only [Bool.or_eq_true, List.any_eq_true, List.mem_map, List.mem_flatMap, callsFor,
       List.mem_filter, beq_iff_eq, Bool.and_eq_true, Bool.not_eq_true', List.isEmpty_eq_false_iff,
       List.contains_iff_mem] at hm
@@ -257,7 +257,7 @@ theorem set_matches_iff_some_pattern (n : Nat) (log : List AddCall) (name : Str)
   · rintro ⟨hi, hm⟩
     refine ⟨hi, ?_⟩
     rw [hsets i hi]
-    simp only [docMatches, List.any_eq_true, Bool.and_eq_true, beq_iff_eq] at hm
+    simp only [docMatchesCore, List.any_eq_true, Bool.and_eq_true, beq_iff_eq] at hm
     obtain ⟨a, ha, hai, p, hp, hmatch, hv⟩ := hm
     have hf := (callFires_iff a _ rxHits hd.noMarkers).mpr ⟨p, hp, hv, hmatch⟩
     simp only [BuiltSet.matchesSpec, builtOf, setOf, hasPrefixSpec, acContains, hd.map_acNorm]
@@ -272,7 +272,7 @@ theorem set_matches_iff_some_pattern (n : Nat) (log : List AddCall) (name : Str)
 /-- non-vacuity: an acceptable log with several kinds on several indices, and a plain name -/
 example : (∀ a ∈ ([⟨0, .suffix, [⟨strOf "example.com", true, 0⟩]⟩, ⟨5, .keyword, [⟨strOf "goog", true, 0⟩]⟩,
     ⟨0, .full, [⟨strOf "Bad.com", true, 0⟩]⟩] : List AddCall), callOk 64 a = true) ∧
-    docMatches [⟨0, .suffix, [⟨strOf "example.com", true, 0⟩]⟩] 0 (strOf "WWW.Example.com.") [] = true := by
+    docMatchesCore [⟨0, .suffix, [⟨strOf "example.com", true, 0⟩]⟩] 0 (strOf "WWW.Example.com.") [] = true := by
   decide
 
 /-- **Independence.** Bit `i` is a function of the `AddSet` calls addressed to index `i` only: two
@@ -281,7 +281,7 @@ answer for every name, whatever the other sets contain). -/
 theorem sets_independent (n : Nat) (log₁ log₂ : List AddCall) (i : Nat) (hi : i < n)
     (h₁ : ∀ a ∈ log₁, callOk n a = true) (h₂ : ∀ a ∈ log₂, callOk n a = true)
     (hsame : log₁.filter (·.idx == i) = log₂.filter (·.idx == i)) :
-    ∃ b₁ b₂, (Matcher.replay n log₁).build = .ok b₁ ∧ (Matcher.replay n log₂).build = .ok b₂ ∧
+    ∃ b₁ b₂, (Matcher.replayCore n log₁).build = .ok b₁ ∧ (Matcher.replayCore n log₂).build = .ok b₂ ∧
       b₁.sets[i]? = b₂.sets[i]? ∧
       ∀ name rxHits, (i ∈ b₁.matchIndicesSpec name rxHits ↔ i ∈ b₂.matchIndicesSpec name rxHits) := by
   obtain ⟨b₁, hb₁, hs₁, hsets₁⟩ := build_ok n log₁ h₁
@@ -333,8 +333,8 @@ example : patValid .keyword ⟨strOf "Ampl", true, 0⟩ = false ∧ patValid .fu
 compile, an unknown pattern kind — and never because of the characters of a pattern (finding #16,
 fixed: keyword patterns are screened like the others). -/
 theorem build_fails_only_as_documented (n : Nat) (log : List AddCall) :
-    (∃ b, (Matcher.replay n log).build = .ok b ∧ ∀ a ∈ log, callOk n a = true) ∨
-    (∃ a ∈ log, callOk n a = false ∧ (Matcher.replay n log).build = .error (callErr n a) ∧
+    (∃ b, (Matcher.replayCore n log).build = .ok b ∧ ∀ a ∈ log, callOk n a = true) ∨
+    (∃ a ∈ log, callOk n a = false ∧ (Matcher.replayCore n log).build = .error (callErr n a) ∧
       callErr n a ≠ .charOutOfRange) := by
   cases hf : log.find? (fun a => !callOk n a) with
   | none =>
@@ -422,8 +422,8 @@ alphabet — any letter case, with or without a trailing dot — `Build` succeed
 some valid pattern added under `i` matches the name according to its kind. -/
 theorem domain_matcher_correct (n : Nat) (log : List AddCall) (name : Str) (rxHits : List Nat)
     (hall : ∀ a ∈ log, callOk n a = true) (hn : plainName name = true) :
-    ∃ b, (Matcher.replay n log).build = .ok b ∧
-      b.matchIndices name rxHits = some ((List.range n).filter fun i => docMatches log i name rxHits) := by
+    ∃ b, (Matcher.replayCore n log).build = .ok b ∧
+      b.matchIndices name rxHits = some ((List.range n).filter fun i => docMatchesCore log i name rxHits) := by
   obtain ⟨b, hb, hsize, hsets⟩ := build_ok n log hall
   obtain ⟨b', hb', hiff⟩ := set_matches_iff_some_pattern n log name rxHits hall hn
   rw [hb] at hb'
@@ -447,9 +447,9 @@ theorem domain_matcher_correct (n : Nat) (log : List AddCall) (name : Str) (rxHi
 valid pattern added under index `i` matches (bits beyond `n` in the last word are 0). -/
 theorem domain_matcher_bitmap_correct (n : Nat) (log : List AddCall) (name : Str) (rxHits : List Nat)
     (hall : ∀ a ∈ log, callOk n a = true) (hn : plainName name = true) :
-    ∃ b ws, (Matcher.replay n log).build = .ok b ∧ b.matchBitmap name rxHits = some ws ∧
+    ∃ b ws, (Matcher.replayCore n log).build = .ok b ∧ b.matchBitmap name rxHits = some ws ∧
       ws.length = (n + 31) / 32 ∧ (∀ w ∈ ws, w < 2 ^ 32) ∧
-      ∀ i, (ws.getD (i / 32) 0).testBit (i % 32) = (decide (i < n) && docMatches log i name rxHits) := by
+      ∀ i, (ws.getD (i / 32) 0).testBit (i % 32) = (decide (i < n) && docMatchesCore log i name rxHits) := by
   obtain ⟨b, hb, hsize, hsets⟩ := build_ok n log hall
   obtain ⟨b', hb', hiff⟩ := set_matches_iff_some_pattern n log name rxHits hall hn
   rw [hb] at hb'
@@ -466,7 +466,7 @@ theorem domain_matcher_bitmap_correct (n : Nat) (log : List AddCall) (name : Str
     rwa [List.getElem!_eq_getElem?_getD, List.getElem?_eq_getElem hi] at this
   · intro i
     -- the value of bit i of the bit vector
-    have hbit : bitFn bits i = (decide (i < n) && docMatches log i name rxHits) := by
+    have hbit : bitFn bits i = (decide (i < n) && docMatchesCore log i name rxHits) := by
       by_cases hi : i < n
       · have hmem := hiff i
         unfold Built.matchIndicesSpec at hmem
@@ -498,7 +498,7 @@ theorem negative_index_is_out_of_range (m : Matcher) (idx : Int) (kind : Kind) (
 /-- for every name, plain or not, the packed tries answer what the trie contract answers -/
 theorem matcher_trie_path_eq_contract (n : Nat) (log : List AddCall) (name : Str) (rxHits : List Nat)
     (hall : ∀ a ∈ log, callOk n a = true) :
-    ∃ b, (Matcher.replay n log).build = .ok b ∧
+    ∃ b, (Matcher.replayCore n log).build = .ok b ∧
       b.matchIndices name rxHits = some (b.matchIndicesSpec name rxHits) := by
   obtain ⟨b, hb, hsize, hsets⟩ := build_ok n log hall
   exact ⟨b, hb, matchIndices_eq_spec n log b hsize hsets name rxHits⟩
